@@ -2,6 +2,7 @@ package main
 
 import (
 	"fmt"
+	"os"
 	"sort"
 
 	"github.com/ulikunitz/lz"
@@ -46,14 +47,14 @@ func propIDs() []string {
 
 // genParserTrace is the common parser-world generator.
 type ptOpts struct {
-	types     []string
-	pg        pgen
-	wrapShare float64 // share of runs in Wrap mode
-	bufShare  float64 // share of runs on a bare ParserBuffer
-	families  []string
+	types      []string
+	pg         pgen
+	wrapShare  float64 // share of runs in Wrap mode
+	bufShare   float64 // share of runs on a bare ParserBuffer
+	families   []string
 	allowLarge bool
-	tweak     func(r *RNG, p *ParserSpec)
-	classW    []int
+	tweak      func(r *RNG, p *ParserSpec)
+	classW     []int
 }
 
 func genParserTrace(r *RNG, tier string, o ptOpts) *Trace {
@@ -75,6 +76,9 @@ func genParserTrace(r *RNG, tier string, o ptOpts) *Trace {
 		fams = inputFamilies
 	}
 	fam := fams[r.Intn(len(fams))]
+	if f := os.Getenv("LZSIM_FAMILY"); f != "" {
+		fam = f // experiments only (never set by bin/check): force one input family
+	}
 	n := inputLenFor(r, bc.BufferSize, class)
 	if (typ == "GSAP" || typ == "OSAP") && n > 6000 {
 		n = 6000
@@ -272,8 +276,10 @@ func init() {
 					}
 				}})
 		},
-		Exec:     execParser("C15"),
-		NonTriv:  func(res *Result) bool { return pr(res, "shrink_discarded") && pr(res, "probe_end", "probe_off-1", "probe_end+1") },
+		Exec: execParser("C15"),
+		NonTriv: func(res *Result) bool {
+			return pr(res, "shrink_discarded") && pr(res, "probe_end", "probe_off-1", "probe_end+1")
+		},
 		MustFire: []string{"probe_off-1", "probe_off", "probe_end-1", "probe_end", "probe_end+1", "reset_with_aliased_cap", "readfrom_exact_fit", "readfrom_reader_error", "reset_oversize", "buffer_full", "shrink_discarded"},
 		Rule:     "operation mix dominated by Write/ReadFrom/Shrink/Reset(data)/ReadAt/PeekAt/ByteAt on every parser and on a bare ParserBuffer, reader faults, aliasing Reset; non-trivial = at least one Shrink>0 and a probe at a boundary offset",
 		Quick:    200000, Thorough: 6000000, Real: realParser, Stub: stubParser})
@@ -420,7 +426,9 @@ func init() {
 			}
 			return runParserTrace(t, "C16", nil, 0, 0)
 		},
-		NonTriv:  func(res *Result) bool { return res.Probes["cfg_checked"] > 0 || (res.OpsDone > 10 && pr(res, "buffer_full", "wrap_multiple_fills")) },
+		NonTriv: func(res *Result) bool {
+			return res.Probes["cfg_checked"] > 0 || (res.OpsDone > 10 && pr(res, "buffer_full", "wrap_multiple_fills"))
+		},
 		MustFire: []string{"cfg_checked", "cfg_rejected", "cfg_accepted", "wrap_eof", "wrap_reader_error_surfaced", "buffer_full", "reset_oversize"},
 		Rule:     "clause 1: arbitrary field values incl. negative/zero/boundary, NewParser error <=> Verify(defaults(cfg)) error, no panic; clause 2: boundary accepted configs driven through >= 3 fills in direct and Wrap mode with reader faults; non-trivial = config clause evaluated, or > 10 ops with a full buffer",
 		Quick:    120000, Thorough: 3600000, Real: realParser, Stub: stubParser})
@@ -479,8 +487,10 @@ func init() {
 			}
 			return t
 		},
-		Exec:     runC08,
-		NonTriv:  func(res *Result) bool { return pr(res, "wrap_multiple_fills") && (pr(res, "c08_twin_compared") || len(res.Fired) > 0) },
+		Exec: runC08,
+		NonTriv: func(res *Result) bool {
+			return pr(res, "wrap_multiple_fills") && (pr(res, "c08_twin_compared") || len(res.Fired) > 0)
+		},
 		MustFire: []string{"wrap_eof", "wrap_eof_again", "wrap_reader_error_surfaced", "wrap_multiple_fills", "c08_twin_compared"},
 		Rule:     "Wrap mode on all parsers; even runs: fault-free chunk plans compared block-for-block with a one-shot reader (metamorphic); odd runs: reader errors with/without data, transient/sticky/dead, first fault stratified over the stream; non-trivial = input longer than BufferSize and a non-trivial chunk or fault plan",
 		Quick:    60000, Thorough: 1800000, Real: realParser, Stub: stubParser})
@@ -515,8 +525,10 @@ func init() {
 		Gen: func(r *RNG, tier string, run int) *Trace {
 			return genDecoderTrace(r, dgen{nOps: 50, sizes: "any", malformed: 0.33, readBias: 5, resetW: 1})
 		},
-		Exec:     execDecoder("C05"),
-		NonTriv:  func(res *Result) bool { return pr(res, "malformed_in_nonempty_buffer", "malformed_match_offbig", "malformed_match_off0") },
+		Exec: execDecoder("C05"),
+		NonTriv: func(res *Result) bool {
+			return pr(res, "malformed_in_nonempty_buffer", "malformed_match_offbig", "malformed_match_off0")
+		},
 		MustFire: []string{"malformed_off0", "malformed_offbig", "malformed_litlen", "malformed_rawoff", "malformed_rawlit", "malformed_after_valid_prefix", "malformed_rejected", "malformed_match_off0", "malformed_match_offbig"},
 		Rule:     "corruption faults (Offset/LitLen over the full uint32 range, offset 0, offset beyond the window limit) in about 1 of 3 blocks/matches, in buffer states reached by arbitrary histories; non-trivial = a malformed item reached the decoder in a non-empty buffer",
 		Quick:    400000, Thorough: 12000000, Real: realDecoder, Stub: stubDecoder})
@@ -549,16 +561,20 @@ func init() {
 			}
 			return genDecoderTrace(r, dgen{target: "decoder", nOps: 30, sizes: "fit", readBias: 4, resetW: 1, wfaults: true, retry: 0.9, firstFault: run % 14, geomClass: cls})
 		},
-		Exec:     execDecoder("C18"),
-		NonTriv:  func(res *Result) bool { return pr(res, "writer_fault_during_WriteBlock", "writer_fault_during_Write", "writer_fault_during_WriteByte", "writer_fault_during_flush") },
+		Exec: execDecoder("C18"),
+		NonTriv: func(res *Result) bool {
+			return pr(res, "writer_fault_during_WriteBlock", "writer_fault_during_Write", "writer_fault_during_WriteByte", "writer_fault_during_flush")
+		},
 		MustFire: []string{"writer_fault_during_WriteBlock", "writer_fault_during_Write", "writer_fault_during_flush", "retry_writeblock", "retry_flush"},
 		Rule:     "Decoder with SimWriter fault plans: first fault stratified over the writer-call index, multiple faults, bursts, accept counts 0..len-1, small geometries, items sized <= min(WS, BS-WS); client follows the documented retry protocol; non-trivial = a writer fault was hit during a call",
 		Quick:    400000, Thorough: 12000000, Real: realDecoder, Stub: stubDecoder})
 
 	register(&Prop{ID: "C07",
-		Gen:      genC07,
-		Exec:     execDecoder("C07"),
-		NonTriv:  func(res *Result) bool { return pr(res, "block_with_seq", "overlap_copy") && pr(res, "decoder_drained", "decoder_shrink_inside_call") },
+		Gen:  genC07,
+		Exec: execDecoder("C07"),
+		NonTriv: func(res *Result) bool {
+			return pr(res, "block_with_seq", "overlap_copy") && pr(res, "decoder_drained", "decoder_shrink_inside_call")
+		},
 		MustFire: []string{"bl_gt_ws", "default_buffer", "seq_gt_ws", "block_with_seq", "decoder_drained"},
 		Rule:     "pipe world: every parser type, any BlockSize incl. > WindowSize, long runs, paired with Decoder{WindowSize: W, BufferSize: 0 or random > W}; plus synthetic well-formed block streams fed to a Decoder; non-trivial = a block with a sequence and a decoder drain",
 		Quick:    16000, Thorough: 480000, Real: append(realParser, realDecoder...), Stub: append(stubParser, stubDecoder...)})
